@@ -877,9 +877,10 @@ func TestC03GoodTraffic(t *testing.T) {
 func TestC03FlakyLoad(t *testing.T) {
 	t.Parallel()
 	const name = "flaky-backend-under-concurrent-load"
-	sub := lab.Sub(name, "sampled: a FLAKY backend under concurrent load: FAULTY (listed under 1-8 backend names, each with its own health state) answers 5xx to one request in 2-5 (by client number + request number) and 200 to all others and to every health probe, GOOD answers 200; "+
-		"8-24 keep-alive clients for 2-3 s (thorough: 3-5 s), in 3 of 4 cases all free-running back to back, else half of them in synchronised volleys (10 a second; every client has its connection open, waits at a barrier, all write at the same instant); all connections are kept alive (thousands of requests a second per lab); passive checks on in 7 of 8 cases with unhealthy_threshold 2, 5, 50 or 1000 "+
-		"(2 in 3 cases: 50 or 1000, hardly ever / never reached, so the flaky backend stays in rotation and counted failures and successes of one backend alternate for the whole burst), off: unhealthy_timeout written or left out; breaker and limiter off (a breaker would answer most of the burst itself); strategy rotating over all five by case index; active checks, plugin chain (1 in 4), backend order, handler and backend_read timeout drawn; "+
+	sub := lab.Sub(name, "sampled: a FLAKY backend under concurrent load: FAULTY is listed under 4-32 backend names (each entry has its own health state and passive failure count) next to one GOOD entry, 16-64 keep-alive clients for 2-3 s (thorough: 3-5 s), every connection kept alive (client-proxy and proxy-backend; thousands of requests a second per lab); "+
+		"none, a quarter or half of the clients are free-running: they send back to back and FAULTY answers 5xx to one of their requests in 2-5 (by client number + request number) and 200 to the others; the remaining clients send in synchronised volleys, up to 40 a second (every client has its connection open, waits at a barrier, all write at the same instant), "+
+		"and FAULTY answers 5xx to every request of one volley and 200 to every request of the next (down for a moment, up again): each entry collects counted failures in one volley and answers several requests successfully side by side in the next; health probes are always answered 200, GOOD answers 200; "+
+		"passive checks on in 7 of 8 cases with unhealthy_threshold 5, 50 or 1000 (4 in 5: 50 or 1000, hardly ever / never reached, so the flaky entries stay in rotation with counted failures), off: unhealthy_timeout written or left out; breaker and limiter off (a breaker would answer most of the burst itself); strategy rotating over all five by case index; active checks, plugin chain (1 in 4), backend order, handler and backend_read timeout drawn; "+
 		"clause (i) for every single request of the burst, then (ii)-(iv) as everywhere; played twice per helios process; "+oracleText+"; every case is non-trivial")
 	sub.NontrivialFloor(1.0)
 	sub.Floor("fault-delivered", 0.90)
@@ -914,7 +915,7 @@ func assumptions() {
 	lab.Assume("L3 binary lab: the real helios executable built from the current tree, loopback TCP only; the FAULTY/GOOD backends are the harness's raw scripted TCP servers, 'refuse' = accept-then-reset of every new connection plus reset of requests arriving on pooled connections (a closed port is not used, it could be re-bound by another process)")
 	lab.Assume("Helios picks the backend: every step is a burst carrying the fault script on FAULTY and a 200 script on GOOD; under the ip_hash strategies half of each burst uses client addresses observed (warm-up) to map to FAULTY; whether the fault reached its target is measured (class fault-delivered, floor)")
 	lab.Assume("wall-clock limits are the oracle here because the statement is about termination: 12-16 s per faulted call, derived from the configured timeouts of the case (normal: <= max(handler, backend_read, write)+0.2 s <= 3.2 s), 20 s no-progress = wedged, 8 s recovery watchdog (normal: <= 1.1 s); /v1/backends is trusted for active_connections and the healthy flag; fd counts are read from /proc/<pid>/fd with backend_idle 1 s so that pooled connections can close")
-	lab.Assume("environment canary: a violation reported while a 100 ms harness ticker showed a gap > 1 s or GET /v1/health on the admin port took > 1 s (paused VM, frozen process, CPU starvation) is not a verdict; the case is re-run up to twice (class rerun-after-environment-stall, details in notes) and is inconclusive if all three attempts were disturbed")
+	lab.Assume("environment canary: a violation reported while a 100 ms harness ticker showed a gap > 1 s or GET /v1/health on the admin port took > 1 s (paused VM, frozen process, CPU starvation) or a recovery probe - which no backend and no timeout delays - took > 250 ms, is not a verdict; the case is re-run up to twice (class rerun-after-environment-stall, details in notes) and is inconclusive if all three attempts were disturbed")
 	lab.Assume("concurrent schedules are sampled by real parallelism, not enumerated; faults below TCP and TLS faults are not generated")
 	lab.Assume("quiet periods are real time (time.Sleep, measured from the end of the previous step's last client call; nothing is sent meanwhile, active probes and the /v1/health canary on the admin port go on); the configured intervals they are compared with are whole seconds at the minimum internal/config accepts (1 s; active-check interval 2 s)")
 	lab.Assume("manner of ending: the client-side judgement uses net/http's response parser (http.ReadResponse: Content-Length, chunked incl. trailer section, close-delimited) and compress/gzip; the complete bodies it compares with are the scripts of the harness's own backends; every scripted body is text/plain so that the gzip plugin of the generated chain (min_size 256) applies to it")
